@@ -413,6 +413,14 @@ func rulesC11(c *Ctx) {
 				return false
 			}
 			okStop = tg.allPathsPass(t, stops) && tg.allPathsPass(t, nils)
+			// ... in that order: Stop is called on the timer, not on the nil that replaced it
+			for _, w := range Writes(stp.Body, false) {
+				if stp.IsField(w.LHS, timer) && w.RHS != nil && isNilIdent(w.RHS) {
+					if ok, _ := tg.DominatedBy(tg.VertexOf(w.Stmt), stops); !ok {
+						okStop = false
+					}
+				}
+			}
 			// the branch is entered on `timer != nil` alone
 			for _, w := range Writes(stp.Body, false) {
 				if stp.IsField(w.LHS, timer) && w.RHS != nil && isNilIdent(w.RHS) {
@@ -626,6 +634,9 @@ func rulesC11(c *Ctx) {
 			}
 		}
 		c.Check(ok405, "serveStateless:405-for-non-POST", f, nil, "any method other than POST is answered 405 with an Allow header and never reaches the transport")
+	})
+	c.Import("R-C11-10", "a 405 from a stateless endpoint (and every other refusal) carries its headers: they are set before the status is written", "C12", "R-C12-11", func(k string) bool {
+		return strings.Contains(k, "serveStateless") || strings.Contains(k, "serveStateful") || strings.Contains(k, "Header().Set sites")
 	})
 	c.Import("R-C11-9", "a dead or foreign session id is refused with a status the client can see: no return of the session-serving HTTP functions leaves the response untouched (a forgotten http.Error is an empty 200 — the request looks accepted)", "C12", "R-C12-10", func(k string) bool {
 		return strings.Contains(k, "lookupSession") || strings.Contains(k, "serveStateful") || strings.Contains(k, "serveStateless") || strings.Contains(k, "servePOST") || strings.Contains(k, "serveGET") || strings.Contains(k, "functions holding") || strings.Contains(k, "their returns")
